@@ -183,6 +183,9 @@ def classify_file(sc, k, test):
             return "P_X08_NonBlocking", dict(base, kind="mutex-held-by-writer-during-write", gate=gate)
         if reset.get("lossy") and bad.get("buf", 0) > reset.get("bound", 0) + 1:
             return "P_X08_Bounded", dict(base, kind="buffer-above-bound")
+        if not reset.get("lossy") and gate and bad.get("buf", 0) <= reset.get("bound", 0) + 1 < sum(
+                1 for x in sc[:k] if x.get("e") == "call" and x.get("op") == "trace") - sum(1 for x in sc[:k] if x.get("e") == "w") - 1:
+            return "P_X08_NoDropUnlessLossy", dict(base, kind="non-lossy-tracer-dropped", buf=bad.get("buf"))
         nw = sum(1 for x in sc[:k] if x.get("e") == "w")
         ncall = sum(1 for x in sc[:k] if x.get("e") == "call" and x.get("op") == "trace")
         if closed and not fclosed and not gate and bad.get("buf", 0) == 0:
